@@ -2,6 +2,15 @@
 """Regenerates MANIFEST.json from the table below (keeps it valid at all times)."""
 import json, sys
 CHECKS = {
+ "C06": dict(level="exploration", design="4/C06",
+   text="Seeded proptest search over hierarchical GDSII libraries (1-5 structs in shuffled order; rectangles cw/ccw, histogram/45-degree/star/near-rectangle/small-grid polygons, boxes, paths; SREFs in all eight orientations; AREFs with literal axis-parallel, rotated and skewed lattices up to 300x300; labels on vertices, edges, inside, outside, other layers, mixed case). Oracle: an independent flattener under GDSII semantics (reflect, rotate ccw, translate; lattice expansion) and exact point-in-shape decide per cell the shapes with nets, the annotations and the flattened multiset per (layer, datatype). Malformed hierarchies (dangling, cyclic, self reference, zero rows/cols, empty boundary) must be errors.",
+   note="An import error on a well-formed library is allowed by the statement (counted as refused). MAG != 1, absolute flags, nodes, two different labels on one shape not generated.",
+   technique="property-based testing against an independent reference flattener and exact geometry (differential oracle)"),
+ "C07": dict(level="exploration", design="4/C07",
+   text="Seeded proptest search over raw layout libraries (cell DAGs in shuffled order, eight instance orientations, rectangles, U/L/histogram/45-degree/star/trapezoid polygons, Manhattan paths, nets, many layers/purposes, all four units): export to GDSII must succeed, exported paths keep exactly their points and every emitted label lies in its shape (exact geometry on the GDSII itself), and re-import gives per cell the same multisets of shapes (layer number, purpose number, points, width, lower-cased net) and instances (target, location, reflection, angle) and the same units.",
+   note="Cell order, rectangle corner order, rectangle-shaped polygons, None vs Some(0) angle, annotations and instance names are not compared; 'No valid label location' for a non-rectilinear named polygon is the documented refusal.",
+   technique="property-based testing: export/import round-trip oracle plus exact-geometry validity predicates on the exported GDSII"),
+
  "C17": dict(level="exploration", design="4/C17",
    text="Generic helper: every digraph on 1-4 nodes incl. self-loops x every listing order x every non-empty start subset (exhaustive, 23.6 M orderings), every 5-node digraph without self-loops x 8 listing orders (exhaustive in thorough, 800 k sampled in quick), random graphs to 300 nodes incl. depth-300 chains. Embedded orderers through their public callers (raw::DepOrder::order, Library::from_gds, tetris Library::dep_order, tetris ProtoExporter::export, Placer::place) on random DAGs and cyclic graphs up to 200 nodes. Oracle: graph model - reachable set, Kahn cycle test, validity predicate accepting any topological order; cyclic => error required.",
    note="Unbounded recursion is observed as the death of the checking process (re-run in isolation by the supervisor).",
